@@ -95,7 +95,7 @@ def run(ctx):
         gfi_hist.st_history(CFG, kinds=["masked_iterate_final"], nops=(0, 2)),
         gfi_hist.st_history(CFG, kinds=["masked_iterate"], nops=(0, 0)),
     )
-    ctx.run_hypothesis(strat, chk, ctx.pick(8, 8), salt="main")
+    ctx.run_hypothesis(strat, chk, ctx.pick(6, 6), salt="main")
 
 
 def replay(ctx, case):
